@@ -1,7 +1,7 @@
 SPECIFICATION Spec
 CONSTANTS GEN = FALSE
           FLAGSET = {0, 2, 6, 9}
-          MENUS = {0, 1, 2, 3, 4, 5, 6}
+          MENUS = {0, 1, 2, 3, 4, 5, 6, 7, 8}
 INVARIANT FinalRegs
 INVARIANT ITRetired
 INVARIANT CondOK
